@@ -479,8 +479,16 @@ def describe(case, obs):
     return keys
 
 
-# open findings this module can recognise: signature kind -> (class observed, exception that escaped)
-SIGNATURES = {"recursion-depth-fields": ("COther", "RecursionError")}
+# open findings this module can recognise (narrow signatures; nothing else is suppressed)
+FIELD_LINE = re.compile(r"^[ \t]*(?:void\d+|[A-Za-z_][\w.]*(?:[ \t]+[A-Za-z_]\w*)?(?:\[[^\]\n]*\])?[ \t]+[A-Za-z_]\w*)[ \t]*(?:#.*)?$")
+
+
+def max_fields_per_section(text):
+    best = 0
+    for section in re.split(r"(?m)^---+[ \t]*$", text):
+        n = sum(1 for line in section.split("\n") if FIELD_LINE.match(line) and "=" not in line)
+        best = max(best, n)
+    return best
 
 
 def known_finding(case, obs, known):
@@ -488,11 +496,11 @@ def known_finding(case, obs, known):
         return None
     for k in known:
         sig = k.get("signature", {})
-        want = SIGNATURES.get(sig.get("kind"))
-        if want and obs.get("out") == want[0] and obs.get("culprit") == want[1]:
-            # narrow: only definitions with at least 150 attribute lines in one file
-            if any(text.count("\n") >= 150 for text in case.get("files", {}).values()):
-                return "%s %s" % (k.get("id", "?"), k.get("description", "")[:200])
+        if sig.get("kind") == "recursion-depth-fields":
+            # a raw RecursionError or InternalError(RecursionError) on a definition with about 195 or more fields in one section
+            if obs.get("culprit") == "RecursionError" and obs.get("out") in ("COther", "CInternal"):
+                if any(max_fields_per_section(text) >= 190 for text in case.get("files", {}).values()):
+                    return "%s %s" % (k.get("id", "?"), k.get("description", "")[:200])
     return None
 
 
